@@ -170,8 +170,18 @@ def case_sets(c, res):
     snap = _snapshot(b, held, names)
     B.reorder_to_pairs(b, pairs)
     _verify(b, held, snap, names, 'reorder_to_pairs')
-    x, y = list(pairs.items())[-1]
-    require(abs(b.vars[x] - b.vars[y]) == 1, 'reorder_to_pairs#post:adjacent', lambda: f'{pairs}: {b.vars}')
+    for x, y in pairs.items():
+        require(abs(b.vars[x] - b.vars[y]) == 1, 'reorder_to_pairs#post:adjacent', lambda: f'{pairs}: {b.vars}')
+    # an already adjacent pair listed first, a distant pair after it
+    if len(names) >= 4:
+        o2 = sorted(b.vars, key=b.vars.get)
+        pairs2 = {o2[0]: o2[1], o2[2]: o2[-1]} if rnd.random() < .5 else {o2[-1]: o2[-2], o2[0]: o2[-3]}
+        snap = _snapshot(b, held, names)
+        B.reorder_to_pairs(b, pairs2)
+        _verify(b, held, snap, names, 'reorder_to_pairs')
+        for x, y in pairs2.items():
+            require(abs(b.vars[x] - b.vars[y]) == 1, 'reorder_to_pairs#post:adjacent', lambda: f'{pairs2}: {b.vars}')
+        res.count('pairs-checked')
     release_all(b, held)
     return [(tuple(o), len(held), c['dyn'], c['seed'] % 1000)]
 
